@@ -473,7 +473,11 @@ func overlayFromPatch(repo, patch string) (map[string][]byte, error) {
 	var files []string
 	for _, l := range strings.Split(string(data), "\n") {
 		if strings.HasPrefix(l, "+++ b/") {
-			files = append(files, strings.TrimSpace(strings.TrimPrefix(l, "+++ b/")))
+			name := strings.TrimPrefix(l, "+++ b/")
+			if i := strings.Index(name, "\t"); i >= 0 {
+				name = name[:i]
+			}
+			files = append(files, strings.TrimSpace(name))
 		}
 	}
 	for _, f := range files {
